@@ -4,7 +4,7 @@
    from the freshly generated derived.gen.go. *)
 From Coq Require Import List NArith.
 Import ListNotations.
-From Verif Require Import Chan.Sem Chan.Expected Chan.Lemmas Chan.FmapProofs Chan.DupProofs Chan.JoinCC Chan.JoinCCLive Chan.JoinSl Chan.JoinSlLive Chan.Explore Chan.Bounded Chan.EnabledComplete Chan.Pipe Chan.PipeLive Chan.JoinVar Chan.JoinVarLive Chan.JoinVarLive2.
+From Verif Require Import Chan.Sem Chan.Expected Chan.Lemmas Chan.FmapProofs Chan.DupProofs Chan.JoinCC Chan.JoinCCLive Chan.JoinSl Chan.JoinSlLive Chan.Explore Chan.Bounded Chan.EnabledComplete Chan.Pipe Chan.PipeLive Chan.JoinVar Chan.JoinVarLive Chan.JoinVarLive2 Chan.Feeder.
 
 (* ---------------- deriveFmap(f, <-chan) ---------------- *)
 Theorem C19_fmap_safety : forall (f : item -> item) xs cin cout s,
@@ -289,3 +289,21 @@ Theorem C19_enabled_complete : forall (f : item -> item) P s a s',
   step f P s a = Some s' -> In a (enabled f P s).
 Proof. exact enabled_complete. Qed.
 Print Assumptions C19_enabled_complete.
+
+(* ---------------- the join forms under a FEEDER environment (bounded) ---------------- *)
+(* One goroutine performs every operation of the environment in a fixed order (Chan/Feeder.v): it hands the
+   channels over, closes the outer channel and feeds / closes the inputs in the given order, so that progress
+   on one input depends on another one being served.  The all-sizes theorems above are about independent
+   producers; for the feeder only this bounded statement is proved: every interleaving, two inputs with 0..2
+   items under EVERY feeding order (eager and lazy hand-over for the chan-of-chan form), three inputs with one
+   item each under the orders [orders3] (every order for the variadic form): no panic, deadlock, leak, wrong
+   delivery or cycle.  The real-runtime battery runs feeder environments with up to 40 inputs. *)
+Theorem C19_join_feeder_bounded_partial :
+  (none_found (feeder_all KJoinCC exp_join_cc (configs_n 2 [0;1;2] [0] [0] ++ configs_n 2 [1] [1] [1]) 2000) = true /\
+   none_found (feeder_some KJoinCC exp_join_cc (fun _ => orders3) (configs_n 3 [1] [0] [0]) 2000) = true) /\
+  (none_found (feeder_all KJoinSl exp_join_sl (configs_n 2 [0;1;2] [0] [0] ++ configs_n 2 [1] [1] [0]) 2000) = true /\
+   none_found (feeder_some KJoinSl exp_join_sl (fun _ => orders3) (configs_n 3 [1] [0] [0]) 2000) = true) /\
+  (none_found (feeder_all KJoinVar (exp_join_var 2) (configs_n 2 [0;1;2] [0;1] [0]) 2000) = true /\
+   none_found (feeder_all KJoinVar (exp_join_var 3) (configs_n 3 [1] [0] [0]) 2000) = true).
+Proof. exact (conj joincc_feeder_bounded (conj joinsl_feeder_bounded joinvar_feeder_bounded)). Qed.
+Print Assumptions C19_join_feeder_bounded_partial.
